@@ -337,6 +337,7 @@ class TraceResult:
         self.accepted = False
         self.events = 0
         self.rejected_at = None
+        self.invariant = None
         self.detail = ""
         self.run = None
 
@@ -358,6 +359,15 @@ def validate_trace(module, trace_path, *, cfg=None, timeout=600, xmx="2g", env=N
         return tr
     if run.ok:
         tr.accepted = True
+        return tr
+    mi = re.search(r"Error: Invariant (\S+) is violated", run.out)
+    if mi:
+        # an invariant of the specification fails on the recorded execution: the trace shows a violation.
+        # The last printed state has l = (index of the next event), i.e. the offending event is l - 1.
+        ls = re.findall(r"^/?\\?\s*l = (\d+)", run.out, re.M)
+        tr.rejected_at = max(1, int(ls[-1]) - 1) if ls else 1
+        tr.detail = f"invariant {mi.group(1)} violated after this event: " + json.dumps(trace_line(trace_path, tr.rejected_at))[:1200]
+        tr.invariant = mi.group(1)
         return tr
     # an evaluation error inside the trace spec: report it as tool error
     tail = run.out[-3000:]
@@ -417,10 +427,12 @@ def trace_rounds(c, trace_module, vh_module, seeds, n, mutate=None, *, xmx="4g",
             ev = trace_line(tp, tr.rejected_at)
             c.add_harness(summ, f"driven trace {vh_module} seed {sd} (rejected)")
             kind = ev.get("ev") if isinstance(ev, dict) else "?"
-            c.violation(f"trace:{vh_module}:{kind}",
-                        f"{trace_module} cannot explain line {tr.rejected_at} of the recorded trace: {json.dumps(ev)[:600]}",
+            why = (f"invariant {tr.invariant} of {trace_module} is violated at line {tr.rejected_at}" if tr.invariant
+                   else f"{trace_module} cannot explain line {tr.rejected_at}")
+            c.violation(f"trace:{vh_module}:{tr.invariant or kind}",
+                        f"{why} of the recorded trace: {json.dumps(ev)[:600]}",
                         {"trace_seed": sd, "line": tr.rejected_at, "event": ev, "drive": vh_module, "n": n})
-        if i == 0 and tr.accepted and mutate:
+        if i == 0 and tr.accepted and mutate and not c.violations:
             c.cov.setdefault("binding_selfcheck_trace", {})[trace_module] = \
                 binding_selfcheck_trace(trace_module, tp, mutate, cfg=cfg, env=env)
 
@@ -428,6 +440,10 @@ def trace_rounds(c, trace_module, vh_module, seeds, n, mutate=None, *, xmx="4g",
 def selfcheck_replay(c, vh_module, cases, corrupt, label):
     """Corrupt one expectation and require the harness to report it."""
     wd = workdir(c.prop)
+    if c.violations:
+        # a verdict exists already; a broken implementation may coincide with the corrupted expectation
+        c.cov.setdefault("binding_selfcheck_replay", {})[label] = "skipped: violations already found in this run"
+        return
     bad = corrupt(cases)
     if bad is None:
         raise ToolError(f"binding self-check ({label}): no case to corrupt")
